@@ -117,6 +117,25 @@ impl NamespaceStates {
         state.finish(origin, result)
     }
 
+    /// Our sync request was declined by the remote because it considers a sync with us running.
+    ///
+    /// If our own request is still what occupies the slot (we did not accept a request from the
+    /// remote in the meantime), nothing is running for this node anymore and the slot is freed.
+    /// Returns whether a resync was requested, or `None` if the state was left untouched.
+    pub fn connect_declined(&mut self, namespace: &NamespaceId, node: EndpointId) -> Option<bool> {
+        let state = self.entry(namespace, node)?;
+        match state.state {
+            SyncState::Running {
+                origin: Origin::Connect(_),
+                ..
+            } => {
+                state.state = SyncState::Idle;
+                Some(state.resync_requested)
+            }
+            _ => None,
+        }
+    }
+
     /// Set whether a [`super::live::Event::PendingContentReady`] may be emitted once the pending queue
     /// becomes empty.
     ///
